@@ -11,6 +11,16 @@ import effects_inputs as ei
 PID = 'C05'
 T_CALL = 6.0
 
+# seed-accepting functions that cannot be exercised dynamically, with the reason; every other seed-accepting function
+# must return normally in at least one seeded task and must not time out in more than half of its tasks (else: break)
+NOT_EXERCISED = {
+    'generate_fc': 'NotImplementedError: unimplemented stub (raises right after get_rng(seed)); only the global-state clauses are evaluated',
+    'mleme_constraint_model': "static only: bct.algorithms.models cannot be imported (cannot import name 'BibTex' from bct.due) and the "
+                              'function is an unimplemented stub',
+}
+# functions whose skeleton contains a draw that the inputs of this check are not expected to reach
+NO_DRAW_EXPECTED = {'generate_fc': 'raises before any draw'}
+
 
 def _state_equal(a, b):
     return a[0] == b[0] and bool(np.array_equal(a[1], b[1])) and tuple(a[2:]) == tuple(b[2:])
@@ -201,6 +211,8 @@ def main():
         ck.obl.append(('BctVerif.Gen.EffectsRng (not regenerated: translator crashed)', False, []))
         ck.finish()
     tr, res, summ = tres
+    ec.selftest_breaks(ck, res)
+    ck.count('translator_selftests', summ['selftests'])
     ok = ck.lean_gate(['BctVerif.Props.C05'], extra_modules=['BctVerif.Model.RngIR'], gen_modules=['BctVerif.Gen.EffectsRng'])
     mirror = {n: d['fails'] for n, d in res['rng'].items() if d['fails']}
     ec.name_failed_obligations(ck, 'BctVerif.Gen.EffectsRng', mirror)
@@ -261,13 +273,31 @@ def main():
             ck.violation(fn, pred, {'task': t, 'info': info, 'status': r['status']}, {'kind': t['kind']})
     never = sorted(fn for fn, n in ran.items() if n == 0)
     ck.dist['functions_exercised'] = len(ran)
-    ck.dist['functions_that_never_returned_normally (counted, not failed)'] = never
+    ck.dist['not_exercised'] = dict(NOT_EXERCISED)
+    ntasks, ntimeouts = {}, {}
+    for r in results:
+        fn = r['task']['function']
+        ntasks[fn] = ntasks.get(fn, 0) + 1
+        if r['status'] == 'timeout':
+            ntimeouts[fn] = ntimeouts.get(fn, 0) + 1
+    if not ck.replay:
+        for fn in never:
+            if fn not in NOT_EXERCISED:
+                ck.breaks.append({'kind': 'never-returns-normally', 'function': fn,
+                                  'note': 'every seeded call raised or timed out and the function is not on the not-exercised list'})
+        for fn, k in ntimeouts.items():
+            if 2 * k > ntasks[fn]:
+                ck.breaks.append({'kind': 'mostly-timeouts', 'function': fn, 'timeouts': k, 'tasks': ntasks[fn]})
+        for fn in NOT_EXERCISED:
+            if ran.get(fn, 0) > 0:
+                ck.count('not_exercised_list_stale:' + fn)
     # translator validation: recorded local draws vs skeleton
     for fn in sorted(ran):
         if fn in hd and not hd[fn] and seen_draw.get(fn, 0) > 0:
             ck.corr_break('translator: skeleton without draw', {'function': fn, 'recorded_local_draws': seen_draw[fn]})
-        if fn in hd and hd[fn] and seen_draw.get(fn, 0) == 0 and ran[fn] > 0:
-            ck.count('skeleton_has_draws_but_none_recorded:' + fn)
+        if fn in hd and hd[fn] and seen_draw.get(fn, 0) == 0 and not ck.replay and fn not in NO_DRAW_EXPECTED:
+            # the generator handed in as seed was never used although the skeleton says the function draws
+            ck.corr_break('translator / inputs: skeleton has draws but the recording generator saw none', {'function': fn, 'normal_returns': ran[fn]})
     ck.cov['traces_validated_against_impl'] = sum(1 for r in results if r['status'] == 'ok')
     ck.finish()
 
